@@ -260,7 +260,11 @@ func (c *ctx) flush() {
 func properSub(want, s1 []int) bool { return len(want) > 0 && len(want) < len(s1) }
 
 // setOp runs one non-in-place operation with one dst layout. alias: s2 is the same slice as s1.
-func (c *ctx) setOp(f int, lay layout, o1, o2 []int, binary, alias bool, extra string, want []int, call func(dst, s1, s2 []int) []int, callExpr string) {
+//
+// Signature class: "dst-not-aliased" for the four fresh layouts, "dst=s1[:0]" / "dst=s2[:0]" for the
+// aliasing ones — but a failure with an aliasing dst on operands that already fail with a fresh dst
+// (baseFailed) is not an aliasing defect and is counted under the not-aliased signature.
+func (c *ctx) setOp(f int, lay layout, o1, o2 []int, binary, alias bool, extra string, want []int, call func(dst, s1, s2 []int) []int, callExpr string, baseFailed bool) (failed bool) {
 	c.n[f]++
 	s1 := clone(o1)
 	s2 := clone(o2)
@@ -270,7 +274,10 @@ func (c *ctx) setOp(f int, lay layout, o1, o2 []int, binary, alias bool, extra s
 	dst := mkDst(lay, s1, s2)
 	var got []int
 	_, st, p := common.Catch(func() { got = call(dst, s1, s2) })
-	class := "dst=" + layoutName[lay]
+	class := "dst-not-aliased"
+	if (lay == dS1 || lay == dS2) && !baseFailed {
+		class = "dst=" + layoutName[lay]
+	}
 	if alias {
 		class += ",s2-is-s1"
 	}
@@ -299,17 +306,21 @@ func (c *ctx) setOp(f int, lay layout, o1, o2 []int, binary, alias bool, extra s
 		m := cs()
 		m["stack"] = st
 		c.r.Violation(fName[f]+"|panic|"+class, fmt.Sprintf("%s panicked at %s", fName[f], common.PanicSite(st)), m, goTest())
-		return
+		return true
 	}
 	if !eq(got, want) {
+		failed = true
 		c.r.Violation(fName[f]+"|wrong-result|"+class, fmt.Sprintf("%s returned %v, want %v", fName[f], got, want), cs(), goTest())
 	}
 	if lay != dS1 && !(alias && lay == dS2) && !eq(s1, o1) {
+		failed = true
 		c.r.Violation(fName[f]+"|input-modified|"+class, fmt.Sprintf("%s changed s1 (not aliased by dst) from %v to %v", fName[f], o1, s1), cs(), "")
 	}
 	if binary && !alias && lay != dS2 && !eq(s2, o2) {
+		failed = true
 		c.r.Violation(fName[f]+"|input-modified|"+class, fmt.Sprintf("%s changed s2 (not aliased by dst) from %v to %v", fName[f], o2, s2), cs(), "")
 	}
+	return failed
 }
 
 // inPlace runs one in-place variant.
@@ -373,6 +384,7 @@ func (c *ctx) binaryOps(o1 []int, S2 [][]int) {
 			eff = o1
 		}
 		wd, wi := diffDef(o1, eff), intersectDef(o1, eff)
+		var bd, bi bool // some fresh-dst layout failed on these operands
 		for lay := dNil; lay <= dS2; lay++ {
 			if lay == dS1 && len(o1) == 0 { // s1[:0] of nil / empty is the nil / fresh-cap0 layout
 				continue
@@ -380,8 +392,12 @@ func (c *ctx) binaryOps(o1 []int, S2 [][]int) {
 			if lay == dS2 && (len(eff) == 0 || alias) {
 				continue
 			}
-			c.setOp(fDiff, lay, o1, o2, true, alias, "", wd, slicez.Diff[int], "slicez.Diff(DST, s1, s2)")
-			c.setOp(fIntersect, lay, o1, o2, true, alias, "", wi, slicez.Intersect[int], "slicez.Intersect(DST, s1, s2)")
+			if c.setOp(fDiff, lay, o1, o2, true, alias, "", wd, slicez.Diff[int], "slicez.Diff(DST, s1, s2)", bd) && lay < dS1 {
+				bd = true
+			}
+			if c.setOp(fIntersect, lay, o1, o2, true, alias, "", wi, slicez.Intersect[int], "slicez.Intersect(DST, s1, s2)", bi) && lay < dS1 {
+				bi = true
+			}
 			if properSub(wd, o1) {
 				c.nt++
 			}
@@ -409,23 +425,31 @@ func (c *ctx) binaryOps(o1 []int, S2 [][]int) {
 func (c *ctx) unaryOps(o1 []int) {
 	wu := uniqueByDef(o1, ident)
 	wk := uniqueByDef(o1, mod2)
+	var bu, bk bool
+	bf := make([]bool, len(preds))
 	for lay := dNil; lay <= dS1; lay++ {
 		if lay == dS1 && len(o1) == 0 {
 			continue
 		}
-		c.setOp(fUnique, lay, o1, nil, false, false, "", wu, func(dst, s, _ []int) []int { return slicez.Unique(dst, s) }, "slicez.Unique(DST, s1)")
-		c.setOp(fUniqueByKey, lay, o1, nil, false, false, "key=v%2", wk, func(dst, s, _ []int) []int { return slicez.UniqueByKey(dst, s, mod2) },
-			"slicez.UniqueByKey(DST, s1, func(v int) int { return v % 2 })")
+		if c.setOp(fUnique, lay, o1, nil, false, false, "", wu, func(dst, s, _ []int) []int { return slicez.Unique(dst, s) }, "slicez.Unique(DST, s1)", bu) {
+			bu = true
+		}
+		if c.setOp(fUniqueByKey, lay, o1, nil, false, false, "key=v%2", wk, func(dst, s, _ []int) []int { return slicez.UniqueByKey(dst, s, mod2) },
+			"slicez.UniqueByKey(DST, s1, func(v int) int { return v % 2 })", bk) {
+			bk = true
+		}
 		if properSub(wu, o1) {
 			c.nt++
 		}
 		if properSub(wk, o1) {
 			c.nt++
 		}
-		for _, pr := range preds[:c.npred] {
+		for pi, pr := range preds[:c.npred] {
 			wf := filterDef(o1, pr.fn)
-			c.setOp(fFilter, lay, o1, nil, false, false, "predicate "+pr.name, wf, func(dst, s, _ []int) []int { return slicez.Filter(dst, s, pr.fn) },
-				"slicez.Filter(DST, s1, func(v int) bool { return "+pr.name+" })")
+			if c.setOp(fFilter, lay, o1, nil, false, false, "predicate "+pr.name, wf, func(dst, s, _ []int) []int { return slicez.Filter(dst, s, pr.fn) },
+				"slicez.Filter(DST, s1, func(v int) bool { return "+pr.name+" })", bf[pi]) {
+				bf[pi] = true
+			}
 			if properSub(wf, o1) {
 				c.nt++
 			}
